@@ -365,6 +365,30 @@ def connOp (s : Conn) : ConnOp → Conn × OpRes
     (forceClose (s1.send (.disconnect .clean)) .clean, .ok)
   | .connAbort => (forceClose s .clean, .ok)
 
+/-! ### one endpoint against an arbitrary environment -/
+
+/-- what can happen to one endpoint: any packet arrives, the event loop runs its next ready entry, the
+    application calls an API, the transport reports `connection_lost` -/
+inductive CEv where
+  | recv (m : Msg)
+  | run
+  | op (o : ConnOp)
+  | lose (reset : Bool)
+  deriving Repr, Inhabited
+
+def Conn.stepEv (s : Conn) : CEv → Conn
+  | .recv m => recvMsg s m
+  | .run => runHead s
+  | .op o => (connOp s o).1
+  | .lose r => connectionLost s r
+
+/-- a freshly authenticated connection: no channels, nothing queued; role, window and the behaviour of the
+    application's callbacks are arbitrary -/
+def Conn.fresh (isClient : Bool) (win : Nat) (srvCfg : List SrvCfg) (pfModes : List OpenMode) : Conn :=
+  { isClient := isClient, win := win, srvCfg := srvCfg, pfModes := pfModes }
+
+def Conn.runEvs (s : Conn) (evs : List CEv) : Conn := evs.foldl Conn.stepEv s
+
 /-! ### two endpoints and the links between them -/
 
 structure Sys where
